@@ -20,6 +20,7 @@ import (
 func Normalize(p *core.Program) {
 	curProg = p
 	normalizeRunUnder(p)
+	normalizeLayoutTables(p)
 	normalizeMonitors(p)
 	normalizeValueMethods(p)
 	normalizeConstReceivers(p)
